@@ -30,6 +30,7 @@ STUB = STUB_ALL
 
 GROUPS = {"g1": ["~id:m~ $[*][ yes() ]"], "g2": ['~id:m~ $[1*][ #1 == "a" ]', "~id:k~ $[*][ @c = count() ]"]}
 ROWS = [["id", "h1"], ["r1", "a"], ["r2", "b"], [], ["r4", "a"]]
+TARGETS = {"g1": ["g1#m", "$g1.csvpaths.m:from"], "g2": ["g2#m", "g2#k", "$g2.csvpaths.m:from", "$g2.csvpaths.m:to", "$g2.csvpaths.k:to"]}
 PROFILES = ["same", "+1s", "+min", "to1259", "tomidnight", "+12h", "back"]
 
 
@@ -81,6 +82,10 @@ def generate(rng, i, tier):
                 "method": rng.choice(meths),
             }
         )
+        # the group may be addressed by a reference that selects members: the run still belongs to the group
+        g = steps[-1]["group"]
+        if rng.random() < 0.25:
+            steps[-1]["target"] = rng.choice(TARGETS[g])
     return {
         "seed": rng.getrandbits(32),
         "listdir_salt": rng.choice([None, rng.getrandbits(16), rng.getrandbits(16)]),
@@ -105,7 +110,11 @@ def reductions(sc):
             c = with_(sc)
             c["steps"][j]["inst"] = "new"
             yield c
-        if st["group"] != "g1":
+        if st.get("target"):
+            c = with_(sc)
+            del c["steps"][j]["target"]
+            yield c
+        if st["group"] != "g1" and not st.get("target"):
             c = with_(sc)
             c["steps"][j]["group"] = "g1"
             yield c
@@ -146,6 +155,9 @@ def execute(sc):
             else:
                 out.fault("instance_reuse")
             g, meth = st["group"], st["method"]
+            pathsname = st.get("target") or g
+            if st.get("target"):
+                out.probe("group addressed through a member reference")
             cls = (g, st["inst"], "byline" if meth in ops.BYLINE else "serial", st["profile"])
             out.sig.append(list(cls) + [meth in ops.COLLECTING])
             if prev_cls is not None:
@@ -153,16 +165,16 @@ def execute(sc):
             prev_cls = cls
             before = W.tree_hashes("archive")
             invoke = seams.SimClock.peek()
-            ops.run_group(cs, meth, g)
+            ops.run_group(cs, meth, pathsname)
             out.runs += 1
             ret = seams.SimClock.peek()
             after = W.tree_hashes("archive")
             try:
-                d = ops.results_of(cs, g)[0].run_dir
+                d = ops.results_of(cs, pathsname)[0].run_dir
             except Exception as e:  # noqa: BLE001
                 out.v("no_results", f"run {idx}: results of {g} not available after the run: {ops.exc_sig(e)}")
                 break
-            where = f"run {idx} ({g}, {st['inst']} instance, {meth}, clock {st['at']} [{st['profile']}])"
+            where = f"run {idx} ({pathsname}, {st['inst']} instance, {meth}, clock {st['at']} [{st['profile']}])"
             # (1) under its own group
             if os.path.dirname(d) != os.path.join("archive", g):
                 out.v("wrong_group_dir", f"{where} wrote to {d}, not under archive/{g}/", reused=st["inst"] == "reused")
@@ -241,7 +253,7 @@ def execute(sc):
             out.log(idx, list(cls), d, sorted(p for p in after if p not in before), len(out.violations))
             if out.violations:
                 break
-        for pr in ("two runs in one second", "two runs in one second, reused instance", "12:59 -> 13:00", "across midnight", "exactly 12h apart", "ordered pair compared", ":last resolved", ":first resolved"):
+        for pr in ("group addressed through a member reference", "two runs in one second", "two runs in one second, reused instance", "12:59 -> 13:00", "across midnight", "exactly 12h apart", "ordered pair compared", ":last resolved", ":first resolved"):
             out.probe(pr, False)
         out.nontrivial = len(runs) >= 2
         out.extra["step_class_pairs"] = pairs
